@@ -575,6 +575,99 @@ func TestVerif_C25_Hazard(t *testing.T) {
 	}
 }
 
+// TestVerif_C25_Handoff is a second way of realizing the model's double
+// dispatch (Check p1, Check p2, Insert p1, Insert p2) that does not depend on
+// a callback sitting between the lookup and the insertion: a holder is parked
+// inside dispatch's critical section (variant A: a call for the same wallet,
+// parked at the first callback, before the lookup; variant B: a call for the
+// other wallet, parked at the second callback) long enough for the contenders
+// queued on the mutex to be handed the mutex directly, one after the other,
+// the moment the holder lets go of it. If the lookup and the insertion are
+// not one critical section, the second contender's lookup then precedes the
+// first contender's insertion.
+func TestVerif_C25_Handoff(t *testing.T) {
+	kit.RequireEngine(t)
+	rep := kit.NewReport("C25", "handoff")
+	defer rep.Write(t)
+	world := newC25World(t)
+	n := kit.IntEnv("VERIF_HANDOFF", 30)
+	if !c25WaitGoroutines(0, c25Long) {
+		t.Fatalf("dispatch goroutines alive before the test")
+	}
+	for i := 0; i < n; i++ {
+		wd := newWalletDispatcher()
+		mon := newC25Monitor()
+		variant := []string{"A", "B"}[i%2]
+		contenders := 2 + (i/2)%3
+		acts := []*c25Action{}
+		results := make(chan string, 8)
+		var holder *c25Action
+		if variant == "A" {
+			holder = newC25Action(world, mon, 1, "w1", "Heartbeat")
+			holder.parkAtCall = 1
+		} else {
+			holder = newC25Action(world, mon, 1, "w2", "Heartbeat")
+			holder.parkAtCall = 2
+		}
+		acts = append(acts, holder)
+		holderRes := make(chan string, 1)
+		go func() { holderRes <- c25Res(wd.dispatch(holder)) }()
+		select {
+		case <-holder.parked:
+		case <-time.After(c25Long):
+			t.Fatalf("the holder never reached its parking point")
+		}
+		for k := 0; k < contenders; k++ {
+			a := newC25Action(world, mon, 2+k, "w1", "Redemption")
+			acts = append(acts, a)
+			go func() { results <- c25Res(wd.dispatch(a)) }()
+		}
+		time.Sleep(time.Duration(3+i%3) * time.Millisecond) // contenders queue up on the mutex
+		close(holder.release)
+		oks := 0
+		got := []string{}
+		var hres string
+		select {
+		case hres = <-holderRes:
+		case <-time.After(c25Long):
+			t.Fatalf("dispatch did not return")
+		}
+		if variant == "A" {
+			got = append(got, hres)
+			if hres == "ok" {
+				oks++
+			}
+		} else if hres != "ok" {
+			rep.Diverge("handoff:other-wallet-refused", "a dispatch for the free wallet w2 was refused while callers for w1 were queued", map[string]interface{}{"i": i}, "ok", hres)
+		}
+		for k := 0; k < contenders; k++ {
+			select {
+			case r := <-results:
+				got = append(got, r)
+				if r == "ok" {
+					oks++
+				}
+			case <-time.After(c25Long):
+				t.Fatalf("dispatch did not return")
+			}
+		}
+		kit.Eventually(5*time.Second, func() bool { return mon.begunN() >= oks })
+		rep.Eval(fmt.Sprintf("%s/contenders=%d", variant, contenders), map[string]interface{}{"variant": variant, "contenders": contenders, "results": got})
+		if oks != 1 || mon.maxOf("w1") > 1 {
+			rep.Diverge("hazard:double-dispatch",
+				fmt.Sprintf("%d concurrent dispatches for wallet w1: %d were accepted and up to %d actions executed at the same time (contract: exactly one accepted, the others refused)",
+					len(got), oks, mon.maxOf("w1")),
+				map[string]interface{}{"i": i, "variant": variant, "contenders": contenders}, 1, map[string]interface{}{"accepted": oks, "maxExecuting": mon.maxOf("w1"), "results": got})
+		}
+		for _, a := range acts {
+			a.finish("ok")
+		}
+		if !c25WaitGoroutines(0, c25Long) {
+			t.Fatalf("dispatch goroutines did not exit")
+		}
+	}
+}
+
 // ------------------------------------------------------------------ Hammer
 
 func TestVerif_C25_Hammer(t *testing.T) {
@@ -622,9 +715,11 @@ func TestVerif_C25_Hammer(t *testing.T) {
 					tn := tnames[prnd.Intn(len(tnames))]
 					a := newC25Action(world, mon, c, wn, tn)
 					// stretch the critical section now and then so that calls overlap
-					j := prnd.Intn(6)
+					j := prnd.Intn(7)
 					a.jitter = func() {
 						switch j {
+						case 6:
+							time.Sleep(1500 * time.Microsecond) // contenders get the mutex handed over
 						case 0:
 							time.Sleep(50 * time.Microsecond)
 						case 1, 2:
